@@ -5,5 +5,6 @@ CONSTANTS Callers = {c1, c2, c3}
  MaxAtt = 2
  FreshKey = FALSE
  MaxJunk = 0
+ Kinds = {"obj"}
  Dev = {"GenIdOutsideLock"}
 CHECK_DEADLOCK FALSE
